@@ -149,14 +149,14 @@ func (w *world) onWrite(rec *simkube.WriteRecord) {
 	}
 	// E2a: only an active revision creates objects.
 	if rec.Before == nil && rec.After != nil && !w.curAct {
-		w.r.Failf("E2/inactive-created", "inactive revision %s created %s", w.cur, rec.Call.Key.Name)
+		w.r.FailLater("E2/inactive-created", "inactive revision %s created %s", w.cur, rec.Call.Key.Name)
 	}
 	// E2b: only an active revision becomes controller.
 	if rec.After != nil {
 		after, before := controllerUID(rec.After), controllerUID(rec.Before)
 		if after != "" && after != before {
 			if n, act, ok := w.revByUID(after); ok && !act {
-				w.r.Failf("E2/inactive-controls", "%s made inactive revision %s the controller of %s", rec.Call, n, rec.Call.Key.Name)
+				w.r.FailLater("E2/inactive-controls", "%s made inactive revision %s the controller of %s", rec.Call, n, rec.Call.Key.Name)
 			}
 		}
 	}
@@ -358,6 +358,7 @@ func body(r *explore.Run, rep *report.R, sc string, variant string, depth int) {
 			w.inj.Armed = true
 			out := reconcileRev(name)
 			w.inj.Armed = false
+			r.Raise()
 			faults := w.inj.Taken[taken:]
 			post := crds(s)
 			revU := s.Peek(simkube.ObjKey{Group: revGK.Group, Kind: revGK.Kind, Name: name})
